@@ -1,12 +1,12 @@
 CONSTANTS
   Reward = 60000
   Maturity = 3
-  Slates = {"s1", "s2"}
+  Slates = {"s1"}
   Amounts = {1000}
   NFund = 2
   MaxH = 6
   MaxLog = 2
-  UseLate = FALSE
+  UseLate = TRUE
   UseTtl = FALSE
   UseInvoice = FALSE
   UseAccounts = FALSE
